@@ -100,14 +100,21 @@ package par2
 //@   props C13 C19 C05
 //@   modifies nothing
 
+// safeName: a declared file name is relative and does not normalise to a path that starts
+// with '.', i.e. neither "." nor "../x" nor a hidden escape; joined with the directory of the
+// index file it therefore stays inside that directory tree (axiom P1 of package path/filepath).
+//@ pred safeName(n) = !pathIsAbs(n) && pathClean(n)[0] != 46
+
 //@ func checkFilename
 //@   props C13 C19 C15
 //@   pure
+//@   ensures implies(result == nil, safeName(filename))
 
 //@ func readFileDescriptionPacket
 //@   props C13 C19 C06 C15
 //@   modifies nothing
 //@   ensures implies(result2 == nil, result1.byteCount >= 1)
+//@   ensures implies(result2 == nil, safeName(result1.filename))
 
 //@ func readIFSCPacket
 //@   props C13 C19 C06
@@ -124,10 +131,10 @@ package par2
 // What every consumer of a parsed file relies on: the validated facts of each
 // packet survive in the maps keyed by file ID / exponent.
 //@ pred mainPacketOK(p) = p.sliceByteCount >= 4 && p.sliceByteCount % 4 == 0 && len(p.recoverySet) >= 1
-//@ pred fileOK(f) = mapall(f.fileDescriptionPackets, v, v.byteCount >= 1) && mapall(f.ifscPackets, v, len(v.checksumPairs) >= 1) && mapall(f.recoveryPackets, v, len(v.data) % 4 == 0) && f.fileDescriptionPackets != nil && f.ifscPackets != nil && f.recoveryPackets != nil
+//@ pred fileOK(f) = mapall(f.fileDescriptionPackets, v, v.byteCount >= 1 && safeName(v.filename)) && mapall(f.ifscPackets, v, len(v.checksumPairs) >= 1) && mapall(f.recoveryPackets, v, len(v.data) % 4 == 0) && f.fileDescriptionPackets != nil && f.ifscPackets != nil && f.recoveryPackets != nil
 
 //@ func readFile
-//@   props C13 C19 C06
+//@   props C13 C19 C06 C15
 //@   nilable expectedSetID
 //@   requires delegate != nil
 //@   modifies nothing
@@ -136,7 +143,7 @@ package par2
 //@   loop 0
 //@     invariant mainPacket == nil || (newerThan(mainPacket, unknownPackets) && mainPacketOK(mainPacket))
 //@     invariant fileDescriptionPackets != nil && ifscPackets != nil && recoveryPackets != nil && unknownPackets != nil
-//@     invariant mapall(fileDescriptionPackets, v, v.byteCount >= 1) && mapall(ifscPackets, v, len(v.checksumPairs) >= 1) && mapall(recoveryPackets, v, len(v.data) % 4 == 0)
+//@     invariant mapall(fileDescriptionPackets, v, v.byteCount >= 1 && safeName(v.filename)) && mapall(ifscPackets, v, len(v.checksumPairs) >= 1) && mapall(recoveryPackets, v, len(v.data) % 4 == 0)
 //@     invariant mapall(unknownPackets, v, cap(v) == 0 || fresh(v))
 //@     invariant fresh(fileDescriptionPackets) && fresh(ifscPackets) && fresh(recoveryPackets) && fresh(unknownPackets) && fresh(buf)
 
@@ -144,28 +151,36 @@ package par2
 
 //@ pred decoderOK(d) = d.fileIO != nil && d.delegate != nil && d.sliceByteCount >= 4 && d.sliceByteCount % 4 == 0
 // infoOK: the file length is positive and is covered by exactly its slices.
-//@ pred infoOK(x, slice) = x.byteCount >= 1 && len(x.checksumPairs) >= 1 && mathint(x.byteCount) <= mathint(len(x.checksumPairs)) * mathint(slice) && mathint(x.byteCount) > (mathint(len(x.checksumPairs)) - 1) * mathint(slice)
+//@ pred infoOK(x, slice) = x.byteCount >= 1 && len(x.checksumPairs) >= 1 && x.byteCount / slice + ite(x.byteCount % slice != 0, 1, 0) == len(x.checksumPairs)
 
 //@ func decoderInputFileInfoIDs
 //@   props C13 C19
 //@   modifies nothing
 
 //@ func makeDecoderInputFileInfos
-//@   props C13 C19 C06
-//@   requires mapall(fileDescriptionPackets, v, v.byteCount >= 1) && mapall(ifscPackets, v, len(v.checksumPairs) >= 1)
+//@   props C13 C19 C06 C15
+//@   requires mapall(fileDescriptionPackets, v, v.byteCount >= 1 && safeName(v.filename)) && mapall(ifscPackets, v, len(v.checksumPairs) >= 1)
 //@   modifies nothing
-//@   ensures implies(result1 == nil, len(result0) == len(fileIDs) && forall(i, 0, len(result0), result0[i].byteCount >= 1 && len(result0[i].checksumPairs) >= 1))
+//@   ensures implies(result1 == nil, len(result0) == len(fileIDs) && forall(i, 0, len(result0), result0[i].byteCount >= 1 && len(result0[i].checksumPairs) >= 1 && safeName(result0[i].filename)))
 //@   loop 0
 //@     invariant cap(decoderInputFileInfos) == 0 || fresh(decoderInputFileInfos)
 //@     invariant len(decoderInputFileInfos) == rangeindex + 1
-//@     invariant forall(i, 0, len(decoderInputFileInfos), decoderInputFileInfos[i].byteCount >= 1 && len(decoderInputFileInfos[i].checksumPairs) >= 1)
+//@     invariant forall(i, 0, len(decoderInputFileInfos), decoderInputFileInfos[i].byteCount >= 1 && len(decoderInputFileInfos[i].checksumPairs) >= 1 && safeName(decoderInputFileInfos[i].filename))
+
+//@ lemma sliceCountCovers
+//@   props C13 C19 C06 C18
+//@   mode int
+//@   forall b mathint, s mathint, n mathint
+//@   requires b >= 1 && s >= 1 && n == b / s + ite(b % s != 0, 1, 0)
+//@   ensures b <= n * s && b > (n - 1) * s && n >= 1
 
 //@ func newDecoder
-//@   props C13 C19 C06 C18
+//@   props C13 C19 C06 C18 C15
 //@   requires fileIO != nil && delegate != nil
 //@   ensures implies(gIOFailed && !old(gIOFailed), result1 != nil)
 //@   ensures implies(result1 == nil, result0 != nil && decoderOK(result0) && result0.numGoroutines == numGoroutines)
 //@   ensures implies(result1 == nil, forall(i, 0, len(result0.recoverySet), infoOK(result0.recoverySet[i], result0.sliceByteCount)))
+//@   ensures implies(result1 == nil, forall(i, 0, len(result0.recoverySet), safeName(result0.recoverySet[i].filename)) && result0.indexPath == indexPath)
 //@   loop 0
 //@     invariant forall(i, 0, rangeindex + 1, infoOK(recoverySet[i], sliceByteCount))
 
@@ -174,9 +189,11 @@ package par2
 //@   modifies nothing
 //@   ensures result == md5(bytes(data[:min(len(data), 16384)]))
 
+// The target of every data-file read and write: the declared name joined to the index file's directory.
 //@ func (*Decoder).getFilePath
 //@   props C13 C19 C15
 //@   modifies nothing
+//@   ensures result == pathJoin(pathDir(d.indexPath), info.filename)
 
 //@ func (*Decoder).ShardCounts
 //@   props C13 C19 C03
@@ -262,7 +279,7 @@ package par2
 //@   ghost-set gIOFailed = gIOFailed || result != nil
 
 //@ func (*Decoder).Repair
-//@   props C02 C20 C14 C19 C18
+//@   props C02 C20 C14 C19 C18 C15
 //@   skip-safety
 //@   ensures implies(gIOFailed && !old(gIOFailed), result1 != nil)
 //@   ghost-set gRepairCalls = gRepairCalls + 1
@@ -270,6 +287,7 @@ package par2
 //@   ghost-set gRepairNotEnough = hastype(result1, "github.com/akalin/gopar/rsec16.NotEnoughParityShardsError")
 //@   assert-call fileIO.WriteFile : len(arg1) == decoderInputFileInfo.byteCount && md5(bytes(arg1)) == decoderInputFileInfo.hash && md5(bytes(arg1[:min(len(arg1), 16384)])) == decoderInputFileInfo.sixteenKHash
 //@   assert-call fileIO.WriteFile : !wasOK[i]
+//@   assert-call fileIO.WriteFile : arg0 == pathJoin(pathDir(d.indexPath), decoderInputFileInfo.filename)
 //@   assert-call append : gLastWriteOK && gLastWritePath == path
 //@   ensures len(result0) == gWritesOK - old(gWritesOK)
 //@   loop 3
@@ -290,8 +308,9 @@ package par2
 // ---- C18: every I/O failure (other than "file does not exist" on a read) surfaces as an error ----
 
 //@ func (*Decoder).fillFileIntegrityInfos
-//@   props C18
+//@   props C18 C15
 //@   skip-safety
+//@   assert-call fileIO.ReadFile : arg0 == pathJoin(pathDir(d.indexPath), info.filename)
 //@   ensures implies(gIOFailed && !old(gIOFailed), result3 != nil)
 
 //@ func (*Decoder).LoadFileData
